@@ -10,6 +10,8 @@ diffs = sorted(glob.glob(os.path.join(V, "selftest", "refactors", "*.diff")))
 if names:
     diffs = [d for d in diffs if os.path.basename(d)[:-5] in names]
 props = sorted(f[:-3] for f in os.listdir(os.path.join(V, "rules")) if re.match(r"C\d\d\.py$", f))
+if os.environ.get("REF_PROPS"):   # only the properties whose rules changed since the last full run
+    props = [p for p in props if p in os.environ["REF_PROPS"].split(",")]
 res = {}
 for d in diffs:
     name = os.path.basename(d)[:-5]
